@@ -120,6 +120,31 @@ def canon(v, path=()):
     return {"k": "c", "v": "other:" + type(v).__name__}
 
 
+def _globals_in(v, seen=None, depth=0):
+    """global stand-ins reachable from a value (terms of calls, containers)"""
+    seen = seen if seen is not None else set()
+    if id(v) in seen or depth > 40:
+        return set()
+    seen.add(id(v))
+    out = set()
+    if isinstance(v, Stub):
+        t = v._term
+        if t[0] == "g":
+            out.add((normmod(t[1]), t[2].split(".")[0]))
+        elif t[0] == "obj":
+            for x in (t[1],) + tuple(t[2]) + tuple(t[3].values()):
+                out |= _globals_in(x, seen, depth + 1)
+        for x in v._states + v._li + [y for p in v._di for y in p]:
+            out |= _globals_in(x, seen, depth + 1)
+    elif isinstance(v, (list, tuple, set, frozenset)):
+        for x in v:
+            out |= _globals_in(x, seen, depth + 1)
+    elif isinstance(v, dict):
+        for a, b in v.items():
+            out |= _globals_in(a, seen, depth + 1) | _globals_in(b, seen, depth + 1)
+    return out
+
+
 class _Rec(pickle._Unpickler):
     """pure-Python unpickler that records (depth, mark positions, memo keys) after every opcode"""
 
@@ -128,8 +153,19 @@ class _Rec(pickle._Unpickler):
         self.log = []
         self.steps = []
         self._gc = {}
+        self.binding = {}       # bare name -> module that most recently resolved a global of that name
+        self.stale = False
+
+    def check_stale(self, *values):
+        for v in values:
+            for m, n in _globals_in(v):
+                # (the decompiler emits no import for builtins, so a builtin never re-binds a name that an import took)
+                if self.binding.get(n, m) != m:
+                    self.stale = True
 
     def find_class(self, m, n):
+        if normmod(m) != "builtins":
+            self.binding[n.split(".")[0]] = normmod(m)
         self.log.append({"e": "import", "m": normmod(sname(m)), "n": sname(n)})
         key = (m, n)
         if key not in self._gc:
@@ -141,6 +177,8 @@ class _Rec(pickle._Unpickler):
         return Stub(self.log, ("pers", pid))
 
     def _rec(self):
+        if self.stack:              # what the last opcode produced or touched: calls and containers being assembled
+            self.check_stale(self.stack[-1])
         marks, pos = [], 0
         for frame in self.metastack:
             pos += len(frame) + 1
@@ -167,7 +205,8 @@ def run_ref(data):
     u = _Rec(data)
     try:
         r = u.load()
-        return {"ok": True, "steps": u.steps, "ev": u.log, "res": canon(r)}
+        u.check_stale(r)
+        return {"ok": True, "steps": u.steps, "ev": u.log, "res": canon(r), "stale": u.stale}
     except Exception as e:  # noqa: BLE001 - the reference raising IS the observation
         return {"ok": False, "steps": u.steps, "ev": u.log, "exc": type(e).__name__ + ":" + str(e)[:80]}
 
